@@ -343,6 +343,7 @@ fn main() {
     run.assume("file contents are words over 8 atoms harvested from a fixed LCG stream (plus one-byte / sub-chunk tails); contents outside this alphabet are covered at chunker level by C04");
     run.assume("one operation at a time is awaited by the driver: intra-operation preemption of two cleaners is not explored");
     run.assume("LocalClient is the store; its xorb files are written with compression scheme None");
+    run.assume("C11: a repeat session may store again exactly the bytes it reports as withheld by fragmentation prevention (C14 presupposes that heuristic) and nothing beyond; xorbs hold far fewer than 65536 chunks (the shard manager's index keeps 16-bit chunk offsets; a configuration with MAX_XORB_CHUNKS >= 65537 is not explored)");
     run.all = all;
     run.finish(
         evaluations,
